@@ -20,6 +20,7 @@ for c in m['checks']:
     d=json.load(open(c['evidence_file'])); jsonschema.validate(d, sch)
     cov=d['coverage']
     assert d['violations']==0 and cov['obligations']==cov['discharged'], (c['property_id'], cov['obligations'], cov['discharged'])
+    assert not cov.get('clause_filters_without_match'), (c['property_id'], 'stale clause filter (selects no obligation)', cov['clause_filters_without_match'])
 print('manifest and', len(m['checks']), 'evidence files valid')
 PY
 exit $rc
